@@ -319,7 +319,11 @@ def _s3(program, res):
     else:
         res.fail_at("C16-S3", pj, "pandas-coalesce-direction", "the shared-column fix-up no longer fills nulls of the left column from the right twin")
     twin_cleanup_rule(program, res)
-    # ---- Polars
+    polars_coalesce_rule(program, res)
+
+
+def polars_coalesce_rule(program, res, rule="C16-S3"):
+    """Polars: the coalesce of shared columns prefers the (original) left input"""
     plj = program.method("polars_model", "PolarsModel", "_natural_join_step", inherited=False)
     whens = [c for c in ast.walk(plj.node) if isinstance(c, ast.Call) and isinstance(c.func, ast.Attribute) and c.func.attr == "alias"
              and "pl.when" in unparse(c)]
@@ -329,13 +333,34 @@ def _s3(program, res):
     ok0 = t0.startswith("pl.when(pl.col(c).is_null()).then(pl.col(c + '_da_right_tmp')).otherwise(pl.col(c))")
     ok1 = t1.startswith("pl.when(pl.col(c + '_da_left_tmp').is_null()).then(pl.col(c)).otherwise(pl.col(c + '_da_left_tmp'))")
     if ok0:
-        res.ok("C16-S3", "Polars: left value, else the right twin")
+        res.ok(rule, "Polars: left value, else the right twin")
     else:
-        res.fail_at("C16-S3", plj, "polars-coalesce-direction", f"`{t0[:100]}` does not prefer the left value", whens[0])
+        res.fail_at(rule, plj, "polars-coalesce-direction", f"`{t0[:100]}` does not prefer the left value", whens[0])
     if ok1:
-        res.ok("C16-S3", "Polars (right join simulated by swapped left join): original left value, else the right one")
+        res.ok(rule, "Polars (right join simulated by swapped left join): original left value, else the right one")
     else:
-        res.fail_at("C16-S3", plj, "polars-coalesce-direction-right", f"`{t1[:110]}` does not prefer the original left value", whens[1])
+        res.fail_at(rule, plj, "polars-coalesce-direction-right", f"`{t1[:110]}` does not prefer the original left value", whens[1])
+
+
+
+def polars_join_guard_rule(program, res, rule="C16-S3"):
+    """Polars: the coalescing statements are not guarded by the join type"""
+    plj = program.method("polars_model", "PolarsModel", "_natural_join_step", inherited=False)
+    g2 = cfgmod.build(plj.node)
+    n_c = 0
+    for n in g2.stmt_nodes(("stmt",)):
+        if "pl.when" in unparse(n.stmt) and "is_null" in unparse(n.stmt):
+            n_c += 1
+            conds = [unparse(b.cond) for b, _l in g2.lexical_guards(n)]
+            extra = [c for c in conds if ("how" in c or "jointype" in c) and c.replace(" ", "") not in ("how!='right'", "how=='right'")]
+            if extra:
+                res.fail_at(rule, plj, f"polars-coalesce-conditional:{extra[0][:40]}",
+                            f"the Polars coalesce of shared columns runs only under `{extra[0]}`: for the excluded join types a shared "
+                            f"non-key column keeps the left null where Pandas and SQL return the right value", n.stmt)
+            else:
+                res.ok(rule, f"Polars: coalesce of shared columns guarded only by {conds}")
+    if n_c != 2:
+        raise AnalysisError("Polars _natural_join_step: coalescing statements not found")
 
 
 def _s3c(program, res):
@@ -366,23 +391,7 @@ def _s3c(program, res):
             bad = [r for r in roots if r.endswith(".jointype") or r == "join_node.jointype"]
             if bad:
                 res.fail_at("C16-S3", nj, "coalesce-depends-on-jointype", f"the COALESCE terms depend on {bad}", n.stmt)
-    # Polars / Pandas: the coalescing statements are not guarded by the join type
-    plj = program.method("polars_model", "PolarsModel", "_natural_join_step", inherited=False)
-    g2 = cfgmod.build(plj.node)
-    n_c = 0
-    for n in g2.stmt_nodes(("stmt",)):
-        if "pl.when" in unparse(n.stmt) and "is_null" in unparse(n.stmt):
-            n_c += 1
-            conds = [unparse(b.cond) for b, _l in g2.lexical_guards(n)]
-            extra = [c for c in conds if ("how" in c or "jointype" in c) and c.replace(" ", "") not in ("how!='right'", "how=='right'")]
-            if extra:
-                res.fail_at("C16-S3", plj, f"polars-coalesce-conditional:{extra[0][:40]}",
-                            f"the Polars coalesce of shared columns runs only under `{extra[0]}`: for the excluded join types a shared "
-                            f"non-key column keeps the left null where Pandas and SQL return the right value", n.stmt)
-            else:
-                res.ok("C16-S3", f"Polars: coalesce of shared columns guarded only by {conds}")
-    if n_c != 2:
-        raise AnalysisError("Polars _natural_join_step: coalescing statements not found")
+    polars_join_guard_rule(program, res)
     pj = program.method("pandas_base", "PandasModelBase", "_natural_join_step", inherited=False)
     g3 = cfgmod.build(pj.node)
     for n in g3.stmt_nodes(("stmt",)):
@@ -395,6 +404,17 @@ def _s3c(program, res):
                 res.ok("C16-S3", "Pandas: shared-column fix-up does not depend on the join type")
 
 
+def polars_full_join_keys_rule(program, res, rule="C16-S4"):
+    plj = program.method("polars_model", "PolarsModel", "_natural_join_step", inherited=False)
+    t = unparse(plj.node)
+    if "coalesce=True" in t or "- set(op.on_a)" not in t:
+        res.ok(rule, "Polars: full join coalesces the key columns")
+    else:
+        res.fail_at(rule, plj, "polars-full-join-keys-not-coalesced",
+                    "Polars join(how='outer'/'full') keeps both key columns unless coalesce=True, and the coalescing step excludes the keys: "
+                    "for right-only rows of a full join the key column is null")
+
+
 def _s4(program, res):
     pj = program.method("pandas_base", "PandasModelBase", "_natural_join_step", inherited=False)
     txt = unparse(pj.node)
@@ -403,14 +423,7 @@ def _s4(program, res):
                     "pandas.merge matches rows whose keys are both null; SQL joins never match null keys (no null-key guard before the merge)")
     else:
         res.ok("C16-S4", "Pandas: null keys are excluded before pd.merge")
-    plj = program.method("polars_model", "PolarsModel", "_natural_join_step", inherited=False)
-    t = unparse(plj.node)
-    if "coalesce=True" in t or "- set(op.on_a)" not in t:
-        res.ok("C16-S4", "Polars: full join coalesces the key columns")
-    else:
-        res.fail_at("C16-S4", plj, "polars-full-join-keys-not-coalesced",
-                    "Polars join(how='outer'/'full') keeps both key columns unless coalesce=True, and the coalescing step excludes the keys: "
-                    "for right-only rows of a full join the key column is null")
+    polars_full_join_keys_rule(program, res)
     fj = program.method("SQLite", "SQLiteModel", "_emit_full_join_as_complex", inherited=False)
     t = unparse(fj.node)
     if "project({}, group_by=join_columns)" in t:
